@@ -3,6 +3,8 @@ type string = Stdlib.String.t
 open Sexp
 open Codec
 
+let int_of_nat n = let rec go n acc = match n with O -> acc | S m -> go m (acc + 1) in go n 0
+
 let run (kind : string) (args : Sexp.t list) : Sexp.t =
   match kind, args with
   | "unpack", [L (A "lines" :: ls); A off] ->
@@ -12,4 +14,9 @@ let run (kind : string) (args : Sexp.t list) : Sexp.t =
   | "shiftlines", [A k; L (A "lines" :: ls)] ->
     let lines = List.map (function A l -> z_of_string l | _ -> failwith "line") ls in
     L (A "lines" :: List.map (fun z -> A (string_of_z z)) (shift_lines (C03.nat_of_int (int_of_string k)) lines))
+  | "fileof", [L (A "files" :: fs); A p] ->
+    let files = List.map (function L [A b; A s] -> (z_of_string b, z_of_string s) | _ -> failwith "file") fs in
+    (match file_of files (z_of_string p) with
+     | None -> A "-1"
+     | Some k -> A (string_of_int (int_of_nat k)))
   | _ -> failwith "c16: bad case"
